@@ -14,7 +14,7 @@ import logging
 
 import msglayer
 import vloop
-from c07_pipe import EXC_NAMES, RFC_RESET_TICKS, rfc_fresher
+from c07_pipe import EXC_NAMES, RFC_RESET_TICKS, rfc_fresher, is_notification
 
 TOKEN = "21"          # pinned token counter 32 -> first token 33
 REQ_MID = 4096
@@ -29,7 +29,8 @@ class _LoopClock:
 
 
 def _name(e):
-    return e.__name__ if isinstance(e, type) else type(e).__name__
+    # (an exception class handed over in place of an instance is not the exception of that name)
+    return "class:" + e.__name__ if isinstance(e, type) else type(e).__name__
 
 
 class ObsRunner(msglayer.Runner):
@@ -57,7 +58,8 @@ class ObsRunner(msglayer.Runner):
                 if e is None:
                     self.dlog("resp:" + self.mstr(req.response.result()))
                 else:
-                    self.dlog(f"rexc:{EXC_NAMES.index(_name(e))}")
+                    n = _name(e)
+                    self.dlog(f"rexc:{EXC_NAMES.index(n)}" if n in EXC_NAMES else "rexc:?" + n)
             return True
 
         req._pipe.on_event(poll, is_interest=False)
@@ -69,10 +71,17 @@ class ObsRunner(msglayer.Runner):
 
         req._stop_interest = stop
         if req.observation is not None:
+            from aiocoap import error as _error
+
             def eb(e):
                 n = _name(e)
+                if not isinstance(e, _error.Error):
+                    n = "?" + n
                 self.dlog("eb:" + (n if n in ("NotObservable", "ObservationCancelled")
-                                   else f"T{EXC_NAMES.index(n)}"))
+                                   else f"T{EXC_NAMES.index(n)}" if n in EXC_NAMES else n))
+                if self.script.get("eb_cancels"):
+                    # the application's errback cancels the observation it is being told the end of
+                    req.observation.cancel()
             req.observation.register_callback(lambda m: self.dlog("cb:" + self.mstr(m)),
                                               _suppress_deprecation=True)
             req.observation.register_errback(eb, _suppress_deprecation=True)
@@ -182,6 +191,11 @@ def oracle_stack(script, res):
     if res.get("shutdown_error") and sum(1 for e in script["events"] if e[0] == "X") == 1:
         # (a second Context.shutdown() is the caller's misuse and C18's business)
         return "Context.shutdown() raised " + res["shutdown_error"], "shutdown-raised"
+    for g in res["groups"]:
+        for x in g:
+            if x.startswith("D") and (":eb:?" in x or ":rexc:?" in x):
+                return (f"the application was handed {x.split('?', 1)[1]} as the error: the end of an observation "
+                        "is an exception instance derived from aiocoap's error.Error"), "error-not-instance"
     loose = any(c.startswith(("OC@", "C@")) for c in res["concrete"])
     if loose:
         return oracle_stack_app(script, res)
@@ -249,20 +263,23 @@ def oracle_stack(script, res):
         if mtype == "CON" and not any(s.endswith(f"ACK:0:{mid}:-:-:0") for s in sends):
             return f"{tok}: matched confirmable notification was not acknowledged ({sends})", "no-ack"
         m = f"{code}:{'-' if obs is None else obs}:{body}"
+        # "a response without Observe option (as every non-2.xx one is)"
+        notif = is_notification(code, obs)
+        what = "without Observe" if obs is None else f"with code {code} (not 2.xx) and Observe {obs}"
         if not got_first:
             got_first = True
-            if obs is None:
+            if not notif:
                 if dels != ["resp:" + m, "eb:NotObservable"]:
-                    return f"{tok}: first response without Observe gave {dels}", "not-observable"
+                    return f"{tok}: first response {what} gave {dels}", "not-observable"
                 over, registered = True, False
             else:
                 if dels != ["resp:" + m]:
                     return f"{tok}: first notification gave {dels}", "first-response"
                 established, last = True, (obs, t)
             continue
-        if obs is None:
+        if not notif:
             if dels != ["cb:" + m, "eb:ObservationCancelled"]:
-                return f"{tok}: response without Observe gave {dels}", "final-response"
+                return f"{tok}: response {what} gave {dels}", "final-response"
             over, registered = True, False
             continue
         fresh = rfc_fresher(last[0], last[1], obs, t)
@@ -290,6 +307,15 @@ def oracle_stack_app(script, res):
         dels = [x.split(":", 1)[1] for x in g if x.startswith("D") and not x.endswith(":stop")]
         kinds = [d.split(":")[0] for d in dels]
         ebs += kinds.count("eb")
+        if k == "C" and f[0] == "0" and not completed and not req_cancelled and not obs_cancelled \
+                and script["events"][0][5]:
+            # request.response cancelled before the first response: the observation is ended, once, with an
+            # error derived from error.Error (whoever iterates over it would wait for ever otherwise)
+            if kinds != ["eb"] or "?" in dels[0]:
+                return (f"{tok}: response future cancelled before the first response; the observation has to be "
+                        f"ended once with an aiocoap error, got {dels}"), "response-cancelled"
+            req_cancelled = True
+            continue
         if (obs_cancelled or req_cancelled) and [x for x in kinds if x in ("cb", "eb")]:
             return f"{tok}: delivery {dels} after the application cancelled", "after-cancel"
         if req_cancelled and [x for x in kinds if x in ("resp", "rexc")]:
@@ -311,6 +337,9 @@ def oracle_stack_app(script, res):
                             f"request whose observation was cancelled ({dels})"), "first-response"
     if ebs > 1:
         return f"{ebs} termination signals", "end-count"
+    if not any(c.startswith("OC@") for c in res["concrete"]):
+        # only response.cancel(): an `async for` consumer must see the end the observation was given
+        return oracle_stack_iter(res)
     return "", None
 
 
